@@ -62,6 +62,11 @@ def run(ctx):
     rep.rule("C07.R9", "force elements and interactions do not modify in place what (possibly memoised) subsystem kinematics hand out (K18): energy, force and compliance residual stay functions of the state", 5)
     from .. import cachepurity as _cp
     _cp.report(ctx, "C07.R9", ("cardillo/interactions/", "cardillo/force_laws/", "cardillo/forces/", "cardillo/actuators/"), check_returns=False, floor_note=False)
+    rep.rule("C07.R10", "memoised kinematics of force elements (length, rate, directions) are keyed by every argument the result depends on - a rate served from a cache keyed by (t, q) only makes the force, hence the power balance, a function of a stale velocity", 0)
+    from . import c26 as _c26
+    _dirs = ("cardillo/interactions/", "cardillo/force_laws/", "cardillo/forces/", "cardillo/actuators/")
+    _c26.r1_keys(ctx, _c26.find_sites(ctx), rule="C07.R10", want_cls=lambda ci: ci.rel.startswith(_dirs))
+    _c26.handmade_memo(ctx, "C07.R10", lambda rel: rel.startswith(_dirs))
     rep.rule("C07.R1", "E_pot dispatch totality", 5)
     rep.rule("C07.R2", "attribute resolution / callable misuse / helper arity under E_pot", 8)
     rep.rule("C07.R3", "energy atoms are covered by the generalized force", 3)
@@ -267,4 +272,15 @@ NEUTRAL += [
     dict(id="c07-n-r9", canary=True, what="TwoPointInteraction: relative velocity formed in place on a copy", file=TPI_,
          old="        return self._n(t, q) @ (self.v_P2(t, q, u) - self.v_P1(t, q, u))\n",
          new="        v_P1P2 = self.v_P2(t, q, u).copy()\n        v_P1P2 -= self.v_P1(t, q, u)\n        return self._n(t, q) @ v_P1P2\n"),
+]
+
+_FB_IMP = ('from abc import ABC, abstractmethod\nimport numpy as np\n', 'from abc import ABC, abstractmethod\nfrom cachetools import cachedmethod, LRUCache\nfrom cachetools.keys import hashkey\nimport numpy as np\n')
+_FB_INIT = ('        self.subsystem = subsystem\n        self.l = self.subsystem.l\n        self.l_q = self.subsystem.l_q\n        self.l_dot = self.subsystem.l_dot\n', '        self.subsystem = subsystem\n        self.l = self.subsystem.l\n        self.l_q = self.subsystem.l_q\n        self.l_dot_cache = LRUCache(maxsize=1)\n')
+MUTANTS += [
+    dict(id="c07-r10-seed", canary=True, what="[seeded by sub-agent] ScalarForceLawBase.l_dot memoised with a key that omits u", file=FB,
+         edits=[(FB,) + _FB_IMP, (FB,) + _FB_INIT, (FB,) + ('    def assembler_callback(self):\n        self.subsystem.assembler_callback()\n', '    @cachedmethod(\n        lambda self: self.l_dot_cache,\n        key=lambda self, t, q, u: hashkey(t, *q),\n    )\n    def l_dot(self, t, q, u):\n        return self.subsystem.l_dot(t, q, u)\n\n    def assembler_callback(self):\n        self.subsystem.assembler_callback()\n')], expect="C07.R10"),
+]
+NEUTRAL += [
+    dict(id="c07-n-r10", canary=True, what="ScalarForceLawBase.l_dot memoised with the full key (t, q, u)", file=FB,
+         edits=[(FB,) + _FB_IMP, (FB,) + _FB_INIT, (FB,) + ('    def assembler_callback(self):\n        self.subsystem.assembler_callback()\n', '    @cachedmethod(\n        lambda self: self.l_dot_cache,\n        key=lambda self, t, q, u: hashkey(t, *q, *u),\n    )\n    def l_dot(self, t, q, u):\n        return self.subsystem.l_dot(t, q, u)\n\n    def assembler_callback(self):\n        self.subsystem.assembler_callback()\n')]),
 ]
